@@ -69,6 +69,8 @@ class SpecMixin(object):
       return VBool(n.id == 'True')
     g = self.resolve_global(n.id, cx.modinfo)
     if g is None:
+      if n.id.startswith('final_'):
+        raise SpecUndefined('local %s is not bound at this exit' % n.id[6:])
       raise SpecError('spec refers to unknown name %r' % n.id)
     return g
 
@@ -278,11 +280,21 @@ class SpecMixin(object):
         return self.pure_app(name, [self.sv(a, cx) for a in n.args], self.world.pure[name], cx)
     if isinstance(f, ast.Attribute):
       base = self.sv(f.value, cx)
-      return self.spec_method(base, f.attr, [self.sv(a, cx) for a in n.args], cx, n)
+      args = [self.sv(a, cx) for a in n.args]
+      if isinstance(base, VGlobal) and n.keywords:
+        # keyword arguments of a pure function: appended in sorted order (as at executed call sites)
+        kws = {k.arg: self.sv(k.value, cx) for k in n.keywords}
+        args = args + [kws[k] for k in sorted(kws)]
+      return self.spec_method(base, f.attr, args, cx, n)
     fv = self.sv(f, cx)
     args = [self.sv(a, cx) for a in n.args]
     if isinstance(fv, VGlobal):
       return self.spec_global_call(fv.path, args, cx)
+    if isinstance(fv, VBuiltin):
+      if fv.name in ('str', 'repr') and len(args) == 1:
+        # same symbol as the executed builtin (builtins_model.bi_str / bi_repr)
+        return args[0] if isinstance(args[0], VStr) and fv.name == 'str' else self.pure_app(fv.name, args, 'str', cx)
+      return self.spec_global_call('builtins.' + fv.name, args, cx)
     raise SpecError('spec call to %s' % ast.dump(f))
 
   def spec_global_call(self, path, args, cx):
@@ -442,7 +454,10 @@ class SpecMixin(object):
     a = truthy(self.sv(n.args[0], cx), cx)
     if z3.is_false(z3.simplify(a)):
       return VBool(True)            # the consequent may be undefined when the antecedent is statically false
-    b = truthy(self.sv(n.args[1], cx), cx)
+    try:
+      b = truthy(self.sv(n.args[1], cx), cx)
+    except SpecUndefined:
+      b = z3.BoolVal(False)         # an undefined consequent is false: the implication holds only if a is false
     return VBool(z3.Implies(a, b))
 
   def spec_fn_iff(self, n, cx):
